@@ -210,15 +210,24 @@ def run_records(ctx, focus, n_random, exhaustive_n=0, field=0):
         judge(ctx, focus, res, C.replay_input(rec, s, j), "corpus:" + name)
     for i in range(n_random):
         s, j = gen.pick_thresholds(rng)
-        kind = i % 3
+        kind = i % 4
         if kind == 0:
             rec = gen.events_record(rng, s, j)
         elif kind == 1:
             rec = gen.random_record(rng, s, j)
-        else:
+        elif kind == 2:
             rec = gen.random_record(rng, s, j, n=rng.randint(6, 30), gaps=rng.choice([0, 0, 1]))
+        else:
+            rec = gen.layout_record(rng, s, j, gaps=rng.choice([0, 0, 1]))
         res = C.run_case(ctx, rec, s, j)
-        judge(ctx, focus, res, C.replay_input(rec, s, j), ["events", "random", "dense"][kind])
+        judge(ctx, focus, res, C.replay_input(rec, s, j), ["events", "random", "dense", "layout"][kind])
+    # long records: hundreds of samples, tens of storms and rises (size-dependent behaviour: hash order of the
+    # storm pool, numpy reductions, SQL over many rows)
+    for k in range(3 if n_random <= 400 else 20):
+        s, j = gen.pick_thresholds(rng)
+        rec = gen.layout_record(rng, s, j, n=rng.randint(300, 900), gaps=rng.choice([0, 2, 5]))
+        res = C.run_case(ctx, rec, s, j)
+        judge(ctx, focus, res, C.replay_input(rec, s, j), "long")
     if exhaustive_n:
         t0 = 1500000000 // 1800 * 1800
         for n in range(1, exhaustive_n + 1):
